@@ -160,4 +160,20 @@ theorem engine_entry_points_delegate :
     holds "Engine::eval_poly" 2 (isCallDeleg "utils::eval_poly" 2) = true := by
   decide
 
+/-- every codec belongs to the rate of its own family and every rate builds the codecs of its own family: the provided
+    trait methods (`RateEncoder::supports` = `Self::Rate::supports`, …) therefore resolve inside the family -/
+def assocOk (a : String × String × String × String) : Bool :=
+  let fam (s : String) : String :=
+    if s = "HighRate" || s = "HighRateEncoder" || s = "HighRateDecoder" then "High"
+    else if s = "LowRate" || s = "LowRateEncoder" || s = "LowRateDecoder" then "Low"
+    else if s = "DefaultRate" || s = "DefaultRateEncoder" || s = "DefaultRateDecoder" then "Default" else "?"
+  fam a.1 != "?" && fam a.1 == fam a.2.2.2 &&
+  ((a.2.1 == "Rate" && a.2.2.1 == "RateEncoder" && a.2.2.2 == fam a.1 ++ "RateEncoder") ||
+   (a.2.1 == "Rate" && a.2.2.1 == "RateDecoder" && a.2.2.2 == fam a.1 ++ "RateDecoder") ||
+   (a.2.1 == "RateEncoder" && a.2.2.1 == "Rate" && a.2.2.2 == fam a.1 ++ "Rate" && a.1 == fam a.1 ++ "RateEncoder") ||
+   (a.2.1 == "RateDecoder" && a.2.2.1 == "Rate" && a.2.2.2 == fam a.1 ++ "Rate" && a.1 == fam a.1 ++ "RateDecoder"))
+
+theorem assoc_types_stay_in_family : assocTypes.length = 12 ∧ assocTypes.all assocOk = true := by
+  decide
+
 end RS.SrcG
